@@ -74,6 +74,8 @@ def touched_roots(base_model: Model, model: Model, edits: List[dict]) -> List[tu
             touched_structs.add(e["name"])
         elif e["edit"] == "E8-override-chain":
             touched_structs.update([e["mid"], e["leaf"]])
+        elif e["edit"] in ("E1-matrix", "E1-same-name"):
+            touched_structs.update(e["structures"])
         elif e["edit"] in ("E2-new-property", "E7-remove-optional"):
             touched_structs.add(e["structure"])
         elif e["edit"].startswith("E5"):
@@ -91,7 +93,7 @@ def touched_roots(base_model: Model, model: Model, edits: List[dict]) -> List[tu
             for _, t in model.iter_subtypes("x", p["type"]):
                 if t["kind"] == "reference" and t["name"] in touched_structs and ("struct", s) not in roots:
                     roots.append(("struct", s))
-    return roots[:60]
+    return roots[:80]
 
 
 def check_model(ctx: Ctx, base: dict, doc: dict, edits: List[dict], seed: int, budget: Dict[str, int], cli_sample: bool) -> Dict[str, Any]:
@@ -143,7 +145,7 @@ def check_model(ctx: Ctx, base: dict, doc: dict, edits: List[dict], seed: int, b
                         return f
                     mini(tvgen.value_strategy(sub.objects, root, cfg), budget["value_cases"], (seed, "C06", name, valuecheck.root_name(root)), mk(name, body))
             # C10 on the classes of the touched roots
-            keys = [r for r in roots if r[0] in ("struct", "msg")][:30]
+            keys = [r for r in roots if r[0] in ("struct", "msg")][:60]
             if keys:
                 r10 = c10.check_keys(sub, keys, seed, budget["c10_k"])
                 stats["c10_cases"] += r10["evaluations"]
